@@ -79,7 +79,6 @@ class BaseValidator:
         except TypeError as e:
             raise ValidationError(str(e)) from e
 
-    @ft.lru_cache(None)
     def signature(self, method: MethodType, exclude: Tuple[str, ...]) -> inspect.Signature:
         """
         Returns method signature.
@@ -89,10 +88,19 @@ class BaseValidator:
         :returns: signature
         """
 
+        # bound methods of class based views are created per request: cache by the underlying function
+        # otherwise the cache grows with (and keeps alive) every view instance and its context
+        if inspect.ismethod(method):
+            return self._signature(method.__func__, exclude, 1)
+
+        return self._signature(method, exclude, 0)
+
+    @ft.lru_cache(None)
+    def _signature(self, method: MethodType, exclude: Tuple[str, ...], skip: int) -> inspect.Signature:
         signature = inspect.signature(method)
 
         method_parameters: List[inspect.Parameter] = []
-        for param in signature.parameters.values():
+        for param in list(signature.parameters.values())[skip:]:
             if param.name not in exclude and not self._exclude_param(param.name, param.annotation, param.default):
                 method_parameters.append(param)
 
